@@ -160,6 +160,11 @@ def outcome_confirms(v, outcome):
 
 def replay_cmd(path):
     rec = json.load(open(path))
+    if rec.get("kind") == "unreachable-acceptance":
+        # an unsat verdict has no input to replay: re-run the check that produced it
+        print("replay %s: %s" % (path, rec["explanation"]))
+        print("re-run: %s" % rec["replay"])
+        return 1
     out = run_native(rec["pkg"], rec["harness_files"], rec["harness"], path, inject=rec.get("inject"))
     print("replay %s: %s (expected %s: %s)" % (path, out, rec["kind"], rec["msg"]))
     return 1 if outcome_confirms(rec, out) else 0
